@@ -20,6 +20,7 @@ pub fn arg_of(v: &serde_json::Value) -> A {
         "i" => A::I(v["v"]["s"].as_u64().unwrap() == 1, enc::limbs_to_u128(&v["v"]["m"]), static_ty(v["ty"].as_str().unwrap())),
         "s" => A::S(v["v"].as_str().unwrap().to_string()),
         "fl" => A::FL(v["v"].as_array().unwrap().iter().map(enc::word_to_f64).collect()),
+        "sl" => A::SL(v["v"].as_array().unwrap().iter().map(|x| x.as_str().unwrap().to_string()).collect()),
         "rl" => A::RL(v["v"].as_array().unwrap().iter().map(|x| x.as_u64().unwrap() as usize).collect()),
         t => panic!("bad arg tag {}", t),
     }
